@@ -7,3 +7,5 @@ import Sheens.Wire
 import Sheens.Engine
 import Sheens.ES
 import Sheens.EngineOracle
+import Sheens.SioCrew
+import Sheens.MatchSpecC
